@@ -137,3 +137,78 @@ impl<W, R, T> Default for RootCompilationScope<W, R, T> {
         Self::new()
     }
 }
+
+#[cfg(feature = "verif")]
+impl<W, R, T> RootCompilationScope<W, R, T> {
+    /// static type of a top-level variable
+    pub fn verif_variable_type(&self, name: &str) -> Option<Arc<XType>> {
+        let id = self.get_identifier(name)?;
+        self.scope.verif_variable_type(&id)
+    }
+
+    pub fn verif_variable_names(&self) -> Vec<String> {
+        let interner = self.interner.borrow();
+        self.scope
+            .verif_variable_names()
+            .into_iter()
+            .map(|i| interner.resolve(i).unwrap().to_string())
+            .collect()
+    }
+
+    /// return type of the unique static overload of a top-level function name
+    pub fn verif_function_spec(&self, name: &str) -> Option<XFuncSpec> {
+        let id = self.get_identifier(name)?;
+        let fns = self.scope.verif_functions();
+        let (_, specs, dynamic) = fns.into_iter().find(|(n, ..)| *n == id)?;
+        if specs.len() == 1 && dynamic.is_empty() {
+            specs.into_iter().next()
+        } else {
+            None
+        }
+    }
+
+    /// every top-level function name with the rendered signatures of its static overloads and
+    /// the descriptions of its dynamic overloads
+    pub fn verif_signatures(&self) -> Vec<(String, Vec<String>, Vec<String>)> {
+        let interner = self.interner.borrow();
+        self.scope
+            .verif_functions()
+            .into_iter()
+            .map(|(name, specs, dynamic)| {
+                (
+                    interner.resolve(name).unwrap().to_string(),
+                    specs
+                        .iter()
+                        .map(|s| {
+                            let generics = s.generic_params.as_ref().map_or(String::new(), |g| {
+                                format!(
+                                    "<{}>",
+                                    g.iter()
+                                        .map(|i| interner.resolve(*i).unwrap().to_string())
+                                        .collect::<Vec<_>>()
+                                        .join(", ")
+                                )
+                            });
+                            format!("{generics}{}", s.xtype().to_string_with_interner(&interner))
+                        })
+                        .collect(),
+                    dynamic.iter().map(|d| d.to_string()).collect(),
+                )
+            })
+            .collect()
+    }
+
+    pub fn verif_type_names(&self) -> Vec<(String, String)> {
+        let interner = self.interner.borrow();
+        self.scope
+            .verif_type_names()
+            .into_iter()
+            .map(|(n, t)| {
+                (
+                    interner.resolve(n).unwrap().to_string(),
+                    t.to_string_with_interner(&interner),
+                )
+            })
+            .collect()
+    }
+}
